@@ -890,3 +890,80 @@ def loops_of(fn):
                     exits.append((u, v))
         res.append({"blocks": comp, "exits": exits})
     return res
+
+
+# ---------------------------------------------------------------------------------------------
+# loop-carried locals (state that survives from one iteration to the next)
+
+def _block_use_def(fn, bb):
+    """(uses-before-def, defs) of whole locals in one block, in statement order"""
+    uses, defs = set(), set()
+
+    def use(l):
+        if l not in defs:
+            uses.add(l)
+
+    def use_op(op):
+        if op[0] in ("c", "m"):
+            use(op[1][0])
+
+    b = fn.blocks[bb]
+    for s in b["s"]:
+        if s[0] != "=":
+            continue
+        rv = s[2]
+        for op in rvalue_operands(rv):
+            use_op(op)
+        for pl in rvalue_places(rv):
+            use(pl[0])
+            if rv[0] in ("ref", "addr") and rv[1] in ("mut", "Mut"):
+                defs.add(pl[0]) if False else None
+        dst = s[1]
+        if dst[1]:
+            use(dst[0])          # partial write / write through a pointer reads the base
+        else:
+            defs.add(dst[0])
+    t = b["t"]
+    if t[0] == "call":
+        for a in t[2]:
+            use_op(a)
+        if t[3][1]:
+            use(t[3][0])
+        else:
+            defs.add(t[3][0])
+    elif t[0] in ("switch", "assert"):
+        use_op(t[1])
+    elif t[0] == "drop":
+        use(t[1][0])
+    return uses, defs
+
+
+def loop_carried(fn, loop_blocks, header):
+    """locals assigned inside the loop whose value (possibly from a previous iteration) is read in the loop before being
+    reassigned on some path from the header.  &mut borrows count as reads of the previous value and as writes."""
+    ud = {bb: _block_use_def(fn, bb) for bb in loop_blocks}
+    # locals mutated through &mut borrows taken in the loop
+    mut_borrowed = set()
+    for bb in loop_blocks:
+        for s in fn.blocks[bb]["s"]:
+            if s[0] == "=" and s[2][0] in ("ref", "addr") and s[2][1] in ("mut", "Mut"):
+                mut_borrowed.add(s[2][2][0])
+    livein = {bb: set() for bb in loop_blocks}
+    changed = True
+    while changed:
+        changed = False
+        for bb in loop_blocks:
+            out = set()
+            for s in fn.succ(bb):
+                if s in loop_blocks:
+                    out |= livein[s]
+            uses, defs = ud[bb]
+            new = uses | (out - defs)
+            if new != livein[bb]:
+                livein[bb] = new
+                changed = True
+    defs_in_loop = set()
+    for bb in loop_blocks:
+        defs_in_loop |= ud[bb][1]
+    defs_in_loop |= mut_borrowed
+    return livein.get(header, set()) & defs_in_loop
